@@ -4,6 +4,7 @@ import (
 	"bufio"
 	"bytes"
 	"fmt"
+	"github.com/ajitpratap0/GoSQLX/pkg/formatter"
 	"math"
 	"os"
 	"os/exec"
@@ -109,11 +110,17 @@ func c20Families() []costFamily {
 		{"or-tautologies", func(n int) string { return "SELECT a FROM t WHERE c = 0" + rep(" OR 1 = 1", n) }, 500},
 		{"tautology-statements", func(n int) string { return rep("SELECT * FROM t WHERE a = 1 OR 1=1;\n", n) }, 500},
 		{"match-against-nest", func(n int) string { return "SELECT " + rep("MATCH(a) AGAINST (", n) + "'x'" + rep(")", n) + " FROM t" }, 200},
-		{"setop-alternating", func(n int) string { return "SELECT 1" + rep(" UNION SELECT 1 EXCEPT SELECT 1 UNION ALL SELECT 1 INTERSECT SELECT 1", n) }, 200},
+		{"setop-alternating", func(n int) string {
+			return "SELECT 1" + rep(" UNION SELECT 1 EXCEPT SELECT 1 UNION ALL SELECT 1 INTERSECT SELECT 1", n)
+		}, 200},
 		// one malformed statement with a long tail of parenthesised sub-queries before its terminator (what recovery has
 		// to skip), and well-formed statements with many comments behind code (what the formatters have to place)
-		{"broken-then-subqueries", func(n int) string { return "SELECT a FROM t WHERE a = = 1" + rep(" OR a IN (SELECT 1)", n) + " ; SELECT 2" }, 300},
-		{"broken-then-nested-parens", func(n int) string { return "SELECT a FROM t WHERE ] " + rep("(", 40) + rep(" (WITH c AS (SELECT 1) SELECT 2) ,", n) + " 1" + rep(")", 40) + " ; SELECT 2" }, 300},
+		{"broken-then-subqueries", func(n int) string {
+			return "SELECT a FROM t WHERE a = = 1" + rep(" OR a IN (SELECT 1)", n) + " ; SELECT 2"
+		}, 300},
+		{"broken-then-nested-parens", func(n int) string {
+			return "SELECT a FROM t WHERE ] " + rep("(", 40) + rep(" (WITH c AS (SELECT 1) SELECT 2) ,", n) + " 1" + rep(")", 40) + " ; SELECT 2"
+		}, 300},
 		{"long-name-many-joins", func(n int) string { return "SELECT * FROM " + rep("t", 8*n) + rep(" CROSS JOIN b", n) }, 200},
 		{"inline-comments-per-item", func(n int) string { return "SELECT " + rep("c /*x*/, ", n) + "c FROM t" }, 500},
 		{"inline-line-comments-per-item", func(n int) string { return "SELECT " + rep("c, -- x\n", n) + "c FROM t -- end" }, 500},
@@ -184,6 +191,7 @@ func c20EPs() []costEP {
 		{"AST.Format", parse, func(s string, p interface{}) {
 			_ = p.(*ast.AST).Format(ast.FormatOptions{IndentWidth: 2, NewlinePerClause: true, KeywordCase: ast.KeywordUpper})
 		}},
+		{"formatter.Format", none, func(s string, _ interface{}) { _, _ = formatter.New(formatter.Options{}).Format(s) }}, // the formatter that carries comments
 		{"ExtractTables", parse, func(s string, p interface{}) { _ = gosqlx.ExtractTables(p.(*ast.AST)) }},
 		{"ExtractColumns", parse, func(s string, p interface{}) { _ = gosqlx.ExtractColumns(p.(*ast.AST)) }},
 		{"ExtractFunctions", parse, func(s string, p interface{}) { _ = gosqlx.ExtractFunctions(p.(*ast.AST)) }},
